@@ -780,7 +780,7 @@ def _quiescence_oracle(sim, env, case, ci):
 # ---------------------------------------------------------------------------
 # evidence
 
-TIERS = {"quick": {"runs": 6000, "budget": 60.0, "cap": 90.0},
+TIERS = {"quick": {"runs": 4000, "budget": 60.0, "cap": 90.0},
          "thorough": {"runs": 400000, "budget": 900.0, "cap": 180.0}}
 
 RULE = ("each run = one seeded case (API x progress type x fault kind/step x "
